@@ -86,7 +86,7 @@ def import_digest(d):
 ALL_RECORDS = None
 
 
-def verify(proj, v, dl, mode, where, records, archive=None):
+def verify(proj, v, dl, mode, where, records, archive=None, allow_missing=False, meta_expect=None):
     """check every step workspace of the project; returns (violations, number of audits checked)"""
     from bob.utils import hashDirectory
     viol = []
@@ -99,6 +99,7 @@ def verify(proj, v, dl, mode, where, records, archive=None):
         p = os.path.join(proj, os.path.dirname(ws), 'audit.json.gz')
         if not os.path.isdir(os.path.join(proj, ws)): continue       # step was not needed (e.g. downloaded dependency)
         if not os.path.exists(p):
+            if allow_missing: continue          # the user built this one with --no-audit
             viol.append(('audit-missing:' + info['label'], '%s: %s %s has a workspace but no audit trail' % (where, info['stack'], info['label']))); continue
         try:
             a = read_audit(p)
@@ -142,6 +143,9 @@ def verify(proj, v, dl, mode, where, records, archive=None):
         m = art.get('meta', {})
         if m.get('recipe') != info['recipe'] or m.get('step') != info['label'] or m.get('package') not in info['stacks']:
             viol.append(('names-wrong', '%s: meta %s' % (tag, {k: m.get(k) for k in ('recipe', 'package', 'step')})))
+        for mk, mv in (meta_expect or {}).items():
+            if m.get(mk) != mv:
+                viol.append(('meta-variable-wrong', '%s: meta.%s is %r, the user passed -M %s=%s' % (tag, mk, m.get(mk), mk, mv)))
         if art.get('metaEnv', {}) != info['meta']:
             viol.append(('metaenv-wrong', '%s: metaEnv %s, live %s' % (tag, art.get('metaEnv'), info['meta'])))
         wsabs = os.path.join(proj, ws)
@@ -234,9 +238,9 @@ def scenario(job):
         nrun += 1
         return rc, out
 
-    def check(D, v, mode, where, archive=None):
+    def check(D, v, mode, where, archive=None, **kw):
         nonlocal n
-        vs, k = verify(D.d, v, dl, mode, where, records, archive)
+        vs, k = verify(D.d, v, dl, mode, where, records, archive, **kw)
         n += k
         viol.extend(vs)
 
@@ -252,6 +256,25 @@ def scenario(job):
                 rc, out = run(D, v, 'dev')
                 if rc: viol.append(('build-fails', out[-200:])); break
                 check(D, v, 'dev', 'dev build after %s' % list(arg[:arg.index(a) + 1]))
+    elif kind == 'noaudit':
+        # audit on, edit, rebuild with --no-audit: whatever audit trail is still next to a workspace must describe that workspace
+        D = e1.Dir(base + '/proj'); D.reset()
+        v = w1.zero(); D.sync(files(v))
+        rc, out = run(D, v, 'dev')
+        if rc: viol.append(('build-fails', out[-200:]))
+        else:
+            for a in arg: v[a] ^= 1
+            D.sync(files(v))
+            rc, out = run(D, v, 'dev', ['--no-audit'])
+            if rc: viol.append(('build-fails', out[-200:]))
+            else: check(D, v, 'dev', 'dev build --no-audit after an audited build and %s' % list(arg), allow_missing=True)
+    elif kind == 'metaM':
+        # user meta variables (-M) are recorded, but never replace the names Bob records itself
+        D = e1.Dir(base + '/proj'); D.reset()
+        v = w1.zero(); D.sync(files(v))
+        rc, out = run(D, v, 'dev', ['-M', 'owner=me', '-M', 'recipe=evil', '-M', 'package=evil', '-M', 'step=evil', '-M', 'bob=evil', '-M', 'language=evil'])
+        if rc: viol.append(('build-fails', out[-200:]))
+        else: check(D, v, 'dev', 'dev build with -M owner=me and -M overrides of recipe/package/step/bob/language', meta_expect={'owner': 'me'})
     elif kind == 'updown':
         v = w1.zero()
         for a in arg: v[a] ^= 1
@@ -312,6 +335,7 @@ def run(ctx):
     if not quick:
         jobs += [('incremental', (a, b)) for a in feats for b in ('coscript', 'srcmod', 'libscript', 'twovar') if a != b]
     jobs += [('updown', ()), ('updown', ('lib2',)), ('shared', ()), ('shared', ('urlsrc',)), ('sharedrace', ())]
+    jobs += [('noaudit', ('libscript',)), ('noaudit', ('srcmod',)), ('metaM', ())]
     if not quick: jobs += [('updown', (f,)) for f in ('twovar', 'reparam', 'toolpath')]
     nrun = naud = 0
     by_id, by_content = {}, {}
